@@ -7,7 +7,7 @@
    Labels: [F] proved for all inputs of the stated domain.  Tie to /repo: ./check C16. *)
 From Coq Require Import List ZArith Lia Bool Arith Permutation QArith.
 Import ListNotations.
-Require Import CV.Orient CV.FreeSpace CV.Density CV.DensityProofs.
+Require Import CV.Orient CV.FreeSpace CV.Density CV.DensityProofs CV.DensityUpdate CV.DensityUpdateProofs.
 Local Open Scope Z_scope.
 
 (* ---------------------------------------------------------------- 1. the bins tile the placement area *)
@@ -212,6 +212,49 @@ Theorem c16_spread_inside : forall order mn mx c x,
   In (c, x) (spread_cells order mn mx) -> (mn < x /\ x < mx)%Q.
 Proof. exact spread_inside. Qed.
 
+(* ---------------------------------------------------------------- 7. demand updates (DensityUpdate.v) *)
+
+(* [F] updateCellDemand(circuit): the guard refuses exactly when some demand changes to or from zero ... *)
+Theorem c16_update_refused_iff : forall d d', length d = length d' ->
+  (same_zero_status d d' = false <->
+   exists c v v', nth_error d c = Some v /\ nth_error d' c = Some v' /\ ((v = 0 /\ v' <> 0) \/ (v <> 0 /\ v' = 0))).
+Proof. exact update_refused_iff. Qed.
+
+(* [F] ... a refused update leaves demands and allocation unchanged, an accepted one replaces the demands only *)
+Theorem c16_update_refused_unchanged : forall h d s d', same_zero_status d d' = false ->
+  ustep h (d, s) (Update d') = Some (d, s).
+Proof. exact update_refused_unchanged. Qed.
+
+Theorem c16_update_accepted : forall h d s d', same_zero_status d d' = true ->
+  ustep h (d, s) (Update d') = Some (d', s).
+Proof. exact update_accepted. Qed.
+
+(* [F] the update keeps the partition invariant, for the demand vector in force afterwards (demands = areas >= 0) *)
+Theorem c16_update_invariant : forall h d d' s, nonnegb d = true -> nonnegb d' = true -> inv h d s ->
+  inv h (update_demand d d') s /\ nonnegb (update_demand d d') = true /\ length (update_demand d d') = length d.
+Proof. exact update_inv. Qed.
+
+(* [F] every history of refineX | refineY | coarsenX | coarsenY | Redistribute | Update, on every grid: the invariant
+   and the checker hold for the final allocation WITH THE FINAL DEMANDS *)
+Theorem c16_update_history_invariant : forall bs regs d ops h d' s',
+  make_hier (make_grid bs regs) = Some h -> nonnegb d = true -> updates_nonneg ops ->
+  run_uops h (d, init_state h d) ops = Some (d', s') ->
+  inv h d' s' /\ partition_okb h d' s' = true /\ nonnegb d' = true /\ length d' = length d.
+Proof. exact update_history_invariant. Qed.
+
+(* [F] "zero-area cells to none" at the end of every such history *)
+Theorem c16_update_history_zero_cell_in_no_bin : forall bs regs d ops h d' s' c,
+  make_hier (make_grid bs regs) = Some h -> nonnegb d = true -> updates_nonneg ops ->
+  run_uops h (d, init_state h d) ops = Some (d', s') -> nth_error d' c = Some 0 ->
+  (forall i j l, nth_error2 (bcells s') i j = Some l -> ~ In c l) /\
+  nth_error (cbx s') c = Some (-1) /\ nth_error (cby s') c = Some (-1).
+Proof. exact update_history_zero_cell_in_no_bin. Qed.
+
+(* [F] demands computed from a circuit (fixed ? 0 : width * height) with non-negative sizes are non-negative *)
+Theorem c16_circuit_demands_nonneg : forall cells,
+  (forall fx w h, In (fx, w, h) cells -> 0 <= w /\ 0 <= h) -> nonnegb (circuit_demands cells) = true.
+Proof. exact circuit_demands_nonneg. Qed.
+
 (* ---------------------------------------------------------------- non-vacuity *)
 
 Definition ex_regs : list rect :=
@@ -271,6 +314,20 @@ Example c16_ex_spread_values :
   = [(2%nat, (5 # 1)%Q); (0%nat, (33 # 5)%Q); (3%nat, (38 # 5)%Q)].
 Proof. vm_compute. reflexivity. Qed.
 
+(* a history with updates: cell 2 grows (accepted), cell 3 shrinks to zero area (refused: nothing changes),
+   cell 1 gets an area (refused), all demands rescaled (accepted); the checker holds with the final demands *)
+Example c16_ex_update_history : exists h s',
+  make_hier ex_grid = Some h /\
+  circuit_demands [(false, 3, 1); (true, 4, 2); (false, 5, 1); (false, 1, 2); (false, 7, 1); (false, 0, 3); (false, 1, 1)] = ex_demands /\
+  run_uops h (ex_demands, init_state h ex_demands)
+    [Op RefineX; Update [3; 0; 9; 2; 7; 0; 1]; Op RefineY; Update [3; 0; 9; 0; 7; 0; 1]; Update [3; 4; 9; 2; 7; 0; 1];
+     Op (Redist [(0, 0); (1, 1); (1, 0)]%nat [[4; 0]; [2]; [6; 3]]%nat); Update [6; 0; 18; 4; 14; 0; 2]; Op CoarsenX]
+  = Some ([6; 0; 18; 4; 14; 0; 2], s') /\
+  bcells s' = [[[4; 0; 6; 3]; [2]]]%nat /\
+  same_zero_status [3; 0; 9; 2; 7; 0; 1] [3; 0; 9; 0; 7; 0; 1] = false /\
+  partition_okb h [6; 0; 18; 4; 14; 0; 2] s' = true /\ partition_okb h [6; 0; 18; 0; 14; 0; 2] s' = false.
+Proof. eexists. eexists. vm_compute. repeat split; reflexivity. Qed.
+
 Print Assumptions c16_subdivisions_tile.
 Print Assumptions c16_grid_limits_tile.
 Print Assumptions c16_bin_capacity_is_region_area.
@@ -299,3 +356,10 @@ Print Assumptions c16_rebisect_is_redistribute.
 Print Assumptions c16_find_constrained_split_range.
 Print Assumptions c16_reallocate_preserves_cells.
 Print Assumptions c16_spread_inside.
+Print Assumptions c16_update_refused_iff.
+Print Assumptions c16_update_refused_unchanged.
+Print Assumptions c16_update_accepted.
+Print Assumptions c16_update_invariant.
+Print Assumptions c16_update_history_invariant.
+Print Assumptions c16_update_history_zero_cell_in_no_bin.
+Print Assumptions c16_circuit_demands_nonneg.
